@@ -65,7 +65,7 @@ CHECKS.update({
 })
 CHECKS.update({
     "C01": {
-        "families": ("processor",),
+        "families": ("processor", "db"),
         "level": "proof",
         "technique": "Lean 4 invariant proof over all event interleavings (every broadcast/stored VAA is quorum-signed and verifiable for a learned set), model tied by differential execution of the real processor",
         "text": ("broadcast_good / store_good prove, by induction over arbitrary event sequences with an explicit invariant and an abstract "
